@@ -429,13 +429,13 @@ impl Default for ListenerCfg {
 pub fn free_port() -> u16 {
     use std::sync::atomic::{AtomicU32, Ordering};
     static NEXT: AtomicU32 = AtomicU32::new(0);
-    let base = 20_000 + (std::process::id() % 300) * 120;
+    // stay below the ephemeral range (32768..) that the clients' own sockets are drawn from
+    const LO: u32 = 10_240;
+    const SPAN: u32 = 21_000;
+    let start = std::process::id().wrapping_mul(997) % SPAN;
     loop {
         let n = NEXT.fetch_add(1, Ordering::Relaxed);
-        let port = (base + n % 30_000) as u16;
-        if port < 1024 {
-            continue;
-        }
+        let port = (LO + (start + n) % SPAN) as u16;
         if std::net::TcpListener::bind(("127.0.0.1", port)).is_ok() {
             return port;
         }
@@ -451,32 +451,43 @@ pub struct Running {
 
 /// Starts the real `Listener` on a free loopback port inside the current `LocalSet`.
 pub async fn start_listener(cfg: &ListenerCfg, adapters: NetAdapters) -> Running {
-    let port = free_port();
-    let addr: SocketAddr = format!("127.0.0.1:{port}").parse().unwrap();
-    let stop = CancellationToken::new();
     let a = Arc::new(adapters);
-    let loca = Arc::new(FixedLocalizationAdapter::default());
-    let mut listener = Listener::new(a.clone(), a.clone(), a.clone(), a.clone(), a.clone(), loca)
-        .with_rate_limiter(cfg.limiter.map(|(d, l)| RateLimiter::<IpAddr>::new(Duration::from_secs(d), l)))
-        .with_proxy_protocol(cfg.proxy.map(|(v1, v2)| ParseConfig { include_tlvs: false, allow_v1: v1, allow_v2: v2 }))
-        .with_connection_timeout(cfg.timeout)
-        .with_auth_secret(cfg.auth_secret.clone());
-    let stop2 = stop.clone();
-    let done = tokio::task::spawn_local(async move { listener.listen(addr, stop2).await.map_err(|e| e.to_string()) });
-    // wait until it accepts
-    // the probe comes from 127.0.0.99 so that it never touches the rate-limit budget of an address
-    // a check uses; it is closed at once (with PROXY protocol on it counts as a header-less connection)
-    for _ in 0..400 {
-        let sock = TcpSocket::new_v4().expect("socket");
-        sock.bind("127.0.0.99:0".parse().unwrap()).expect("bind probe");
-        if let Ok(s) = sock.connect(addr).await {
-            drop(s);
-            break;
+    for _attempt in 0..8 {
+        let port = free_port();
+        let addr: SocketAddr = format!("127.0.0.1:{port}").parse().unwrap();
+        let stop = CancellationToken::new();
+        let loca = Arc::new(FixedLocalizationAdapter::default());
+        let mut listener = Listener::new(a.clone(), a.clone(), a.clone(), a.clone(), a.clone(), loca)
+            .with_rate_limiter(cfg.limiter.map(|(d, l)| RateLimiter::<IpAddr>::new(Duration::from_secs(d), l)))
+            .with_proxy_protocol(cfg.proxy.map(|(v1, v2)| ParseConfig { include_tlvs: false, allow_v1: v1, allow_v2: v2 }))
+            .with_connection_timeout(cfg.timeout)
+            .with_auth_secret(cfg.auth_secret.clone());
+        let stop2 = stop.clone();
+        let done = tokio::task::spawn_local(async move { listener.listen(addr, stop2).await.map_err(|e| e.to_string()) });
+        // wait until it accepts. The probe comes from 127.0.0.99 so that it never touches the rate-limit
+        // budget of an address a check uses; it is closed at once (with PROXY protocol on it counts as a
+        // header-less connection)
+        let mut up = false;
+        for _ in 0..400 {
+            if done.is_finished() {
+                break; // could not bind: try another port
+            }
+            let sock = TcpSocket::new_v4().expect("socket");
+            sock.bind("127.0.0.99:0".parse().unwrap()).expect("bind probe");
+            if let Ok(s) = sock.connect(addr).await {
+                drop(s);
+                up = true;
+                break;
+            }
+            tokio::time::sleep(Duration::from_millis(5)).await;
         }
-        tokio::time::sleep(Duration::from_millis(5)).await;
+        if up {
+            tokio::time::sleep(Duration::from_millis(2)).await;
+            return Running { addr, stop, done, started: Instant::now() };
+        }
+        stop.cancel();
     }
-    tokio::time::sleep(Duration::from_millis(2)).await;
-    Running { addr, stop, done, started: Instant::now() }
+    common::machinery("the listener could not be started on any loopback port")
 }
 
 /// Runs an async harness body on a fresh current-thread runtime inside a LocalSet.
